@@ -17,6 +17,20 @@ func (cv *tagCycleValue) String() string {
 	return cv.value.String()
 }
 
+// cycleOutput returns what the cycle tag writes for a value: like a variable
+// tag it escapes text while autoescaping is on, unless the argument is marked
+// safe (by the value or by the safe filter).
+func cycleOutput(ctx *ExecutionContext, expr IEvaluator, val *Value) (string, *Error) {
+	if ctx.Autoescape && !val.safe && !expr.FilterApplied("safe") && (val.IsString() || rendersText(val)) {
+		escaped, err := ApplyFilter("escape", val, nil)
+		if err != nil {
+			return "", err
+		}
+		return escaped.String(), nil
+	}
+	return val.String(), nil
+}
+
 func (node *tagCycleNode) Execute(ctx *ExecutionContext, writer TemplateWriter) *Error {
 	item := node.args[node.idx%len(node.args)]
 	node.idx++
@@ -42,7 +56,11 @@ func (node *tagCycleNode) Execute(ctx *ExecutionContext, writer TemplateWriter) 
 		t.value = val
 
 		if !t.node.silent {
-			writer.WriteString(val.String())
+			out, err := cycleOutput(ctx, item, val)
+			if err != nil {
+				return err
+			}
+			writer.WriteString(out)
 		}
 	} else {
 		// Regular call
@@ -56,7 +74,11 @@ func (node *tagCycleNode) Execute(ctx *ExecutionContext, writer TemplateWriter) 
 			ctx.Private[node.asName] = cycleValue
 		}
 		if !node.silent {
-			writer.WriteString(val.String())
+			out, err := cycleOutput(ctx, item, val)
+			if err != nil {
+				return err
+			}
+			writer.WriteString(out)
 		}
 	}
 
